@@ -2863,8 +2863,8 @@ func genMapRanges() string {
 				return true
 			})
 			// every block: range statements over those maps
-			var visitBlock func(list []ast.Stmt)
-			inspectRange := func(list []ast.Stmt, idx int, r *ast.RangeStmt) {
+			var visitBlock func(list []ast.Stmt, after [][]ast.Stmt)
+			inspectRange := func(list []ast.Stmt, idx int, r *ast.RangeStmt, after [][]ast.Stmt) {
 				isMap := false
 				switch v := r.X.(type) {
 				case *ast.Ident:
@@ -2913,7 +2913,13 @@ func genMapRanges() string {
 				}
 				for _, a := range apps {
 					sortCall := "NOSORT"
-					for _, st := range list[idx+1:] {
+					// the statements that follow the range: in its own block, then in every enclosing block
+					var following []ast.Stmt
+					following = append(following, list[idx+1:]...)
+					for k := len(after) - 1; k >= 0; k-- {
+						following = append(following, after[k]...)
+					}
+					for _, st := range following {
 						found := ""
 						ast.Inspect(st, func(x ast.Node) bool {
 							ce, ok := x.(*ast.CallExpr)
@@ -2941,36 +2947,37 @@ func genMapRanges() string {
 					rows = append(rows, "("+leanStr(where)+", "+leanStr(exprText(r.X))+", "+leanStr(what)+", "+leanStr(sortCall)+")")
 				}
 			}
-			visitBlock = func(list []ast.Stmt) {
+			visitBlock = func(list []ast.Stmt, after [][]ast.Stmt) {
 				for i, st := range list {
 					if r, ok := st.(*ast.RangeStmt); ok {
-						inspectRange(list, i, r)
+						inspectRange(list, i, r, after)
 					}
+					inner := append(append([][]ast.Stmt{}, after...), list[i+1:])
 					// nested blocks
 					ast.Inspect(st, func(x ast.Node) bool {
 						switch b := x.(type) {
 						case *ast.BlockStmt:
 							if x != ast.Node(st) {
-								visitBlock(b.List)
+								visitBlock(b.List, inner)
 								return false
 							}
 						case *ast.CaseClause:
-							visitBlock(b.Body)
+							visitBlock(b.Body, inner)
 							return false
 						case *ast.CommClause:
-							visitBlock(b.Body)
+							visitBlock(b.Body, inner)
 							return false
 						}
 						return true
 					})
 				}
 			}
-			visitBlock(fd.Body.List)
+			visitBlock(fd.Body.List, nil)
 		}
 	}
 	var sb strings.Builder
 	sb.WriteString(header)
-	sb.WriteString("/-- every `range` over a (syntactically recognisable) map in caddyconfig/httpcaddyfile/*.go and modules/**/caddyfile.go:\n    (file:function, ranged expression, `noappend` | `appendkey` (the body appends the range key itself to a slice) |\n    `appendother` (it appends something else), the first sort call on that slice later in the enclosing block, or `NOSORT`) -/\n")
+	sb.WriteString("/-- every `range` over a (syntactically recognisable) map in caddyconfig/httpcaddyfile/*.go and modules/**/caddyfile.go:\n    (file:function, ranged expression, `noappend` | `appendkey` (the body appends the range key itself to a slice) |\n    `appendother` (it appends something else), the first sort call on that slice after the loop — in its own block or an enclosing one —, or `NOSORT`) -/\n")
 	sb.WriteString("def caddyfileMapRanges : List (String × String × String × String) := [\n  " + strings.Join(rows, ",\n  ") + "]\n")
 	sb.WriteString(footer)
 	return sb.String()
